@@ -86,6 +86,23 @@ theorem update_other_row (u : Update) (ps : Env) (r : SRow) (c : Col) (g : Strin
     simp [hne] at this
   · rfl
 
+/-- **Over the whole table**: an UPDATE whose WHERE clause pins `collection` and `key` rewrites only rows that carry the bound collection id
+and the bound key - rows of every other collection, and every other key of the same collection, come out as they went in. -/
+theorem update_table_touches_only (u : Update) (ps : Env) (t : List SRow) (gc gk : String)
+    (hc : u.cond.pins .collection gc = true) (hk : u.cond.pins .key gk = true) :
+    u.execTable ps t
+      = t.map (fun r => if r.collection.same (ps gc) && r.key.same (ps gk)
+                        then (if (u.cond.eval ps r).truthy then applySets ps r u.sets r else r) else r) := by
+  unfold Update.execTable
+  apply List.map_congr_left
+  intro r _
+  by_cases h : (u.cond.eval ps r).truthy = true
+  · have h1 := pins_sound ps r u.cond .collection gc hc h
+    have h2 := pins_sound ps r u.cond .key gk hk h
+    simp only [SRow.get] at h1 h2
+    simp [h, h1, h2]
+  · simp [h]
+
 /-- Every regenerated UPDATE on `documents` pins both `collection` (to the Go expression `c.id`) and `key` (to `key`). -/
 theorem updates_pin_collection_and_key :
     ∀ u ∈ [Collection_DeleteSubDocPaths_UPDATE_0, Collection_DeleteWithXattrs_UPDATE_0, Collection_GetAndTouchRaw_UPDATE_0,
